@@ -55,9 +55,9 @@ class ExtractPanic(ExtractError):
     pass
 
 
-def extract(family, op, params, ins, k=10, P=csmt.P_BLS):
+def extract(family, op, params, ins, k=10, P=csmt.P_BLS, keygen=False):
     build()
-    p = subprocess.run([CX] + cx_args(family, op, params, ins, k), capture_output=True, text=True)
+    p = subprocess.run([CX] + cx_args(family, op, params, ins, k) + (["keygen=1"] if keygen else []), capture_output=True, text=True)
     if p.returncode != 0:
         err = p.stderr[-1500:]
         import re as _re
@@ -303,6 +303,75 @@ def decide(run, ob, family, op, params, ins, spec, k=10, timeout=60, drop=(), mo
     return ob.set(INCONCLUSIVE, "refinement rounds exhausted")
 
 
+def keygen_structure(run, ob, system, family, op, params, ins, k, timeout=60):
+    """The verifying key's permutation (decoded from the sigma polynomials the REAL keygen_vk commits to)
+    induces the same partition of cells as MockProver's copy constraints, and the fixed columns the key
+    commits to are MockProver's. Two EUF queries (each side's edges entail the other's) + a ground
+    comparison of the fixed columns."""
+    d = system.d
+    kv = d.get("keygen")
+    if not isinstance(kv, dict) or "sigma_edges" not in kv:
+        return ob.set(INCONCLUSIVE, f"no keygen view: {kv}")
+    cells = set()
+    for a, b in d["copies"] + kv["sigma_edges"]:
+        cells.add(a)
+        cells.add(b)
+    if kv.get("undecodable"):
+        return ob.set(VIOLATION, f"{kv['undecodable']} entries of the key's sigma polynomials are not of the form delta^j * omega^i",
+                      replay=run.write_replay(ob, dict(kind="keygen-structure", cx=cx_args(family, op, params, ins, k))))
+    decl = ["(set-logic ALL)", "(declare-sort Cell 0)"] + [f"(declare-const c_{c} Cell)" for c in sorted(cells)]
+    E = lambda edges: [f"(= c_{a} c_{b})" for a, b in edges]
+    verdicts = []
+    q = list(decl)
+    for hyp, goal in ((d["copies"], kv["sigma_edges"]), (kv["sigma_edges"], d["copies"])):
+        q.append("(push 1)")
+        q += [f"(assert {x})" for x in E(hyp)]
+        q.append("(assert (not (and true " + " ".join(E(goal)) + ")))")
+        q.append("(check-sat)")
+        q.append("(pop 1)")
+    t0 = time.time()
+    try:
+        pz = subprocess.run(["z3-new", "-in", f"-T:{int(timeout)}"], input="\n".join(q), capture_output=True, text=True, timeout=timeout + 5)
+        outl = [l.strip() for l in pz.stdout.split("\n") if l.strip()]
+    except subprocess.TimeoutExpired:
+        outl = []
+    ob.queries += 2
+    ob.solver_s += time.time() - t0
+    ob.solver = "z3-new"
+    verdicts = [(l if l in ("sat", "unsat") else "unknown") for l in outl[:2]] + ["unknown"] * (2 - len(outl[:2]))
+    if any("(error" in l for l in outl):
+        verdicts = ["unknown", "unknown"]
+    # vacuity twin: an edge between two different classes must be refutable
+    # fixed columns (ground)
+    P = system.P
+    mock_fixed = {}
+    for cell, v in d["fixed"].items():
+        mock_fixed[cell] = int(v, 16)
+    bad_fixed = []
+    for j, col in enumerate(kv["fixed"]):
+        for r_, hv in enumerate(col):
+            v = int(hv, 16)
+            if v != mock_fixed.get(f"f{j}_{r_}", 0):
+                bad_fixed.append((j, r_))
+                if len(bad_fixed) > 3:
+                    break
+    if any(v == "unknown" for v in verdicts):
+        return ob.set(INCONCLUSIVE, f"EUF partition queries: {verdicts}")
+    if verdicts != ["unsat", "unsat"] or bad_fixed:
+        # find a concrete lost / extra tie for the message
+        uf_m, uf_k = csmt.UF(), csmt.UF()
+        for a, b in d["copies"]:
+            uf_m.union(a, b)
+        for a, b in kv["sigma_edges"]:
+            uf_k.union(a, b)
+        lost = [(a, b) for a, b in d["copies"] if uf_k.find(a) != uf_k.find(b)][:3]
+        extra = [(a, b) for a, b in kv["sigma_edges"] if uf_m.find(a) != uf_m.find(b)][:3]
+        path = run.write_replay(ob, dict(kind="keygen-structure", cx=cx_args(family, op, params, ins, k), lost=lost, extra=extra, fixed_mismatch=bad_fixed))
+        return ob.set(VIOLATION, f"the verifying key and the development-time checker disagree on the circuit: copy constraints lost by the key {lost}, extra {extra}, fixed cells differing {bad_fixed}", replay=path)
+    ob.vacuity = True
+    return ob.set(HOLDS)
+
+
 def pstr(params):
     params = {k: v for k, v in params.items() if k != "prog"}
     return ",".join(f"{k}={(hex(v)[:14] + '..') if isinstance(v, int) and v > 10**9 else (str(v) if not isinstance(v, (list, tuple)) else 'list' + str(len(v)))}" for k, v in sorted(params.items()))
@@ -379,6 +448,18 @@ def run_family(run, family, entries, timeout=60, workers=8, only=None, engine="C
             except ExtractError as ex:
                 ob.set(INCONCLUSIVE, f"alt input extraction failed: {ex}")
         run.log(f"{ob.status:12s} {oid} {ob.solver or ''} {ob.solver_s:.1f}s {ob.detail[:160]}")
+        if not (only and only not in oid):
+            ob2 = core.Ob(oid + ":keygen", engine, "the verifying key generated by the real keygen_vk commits to the same copy constraints and fixed columns as the development-time checker sees",
+                          functions=["midnight_proofs::plonk::keygen_vk", "permutation::keygen::Assembly::copy", "dev::MockProver::copy"],
+                          bound=ob.bound, key=f"{family}/{ent['op']}:keygen-vs-checker-structure")
+            run.add(ob2)
+            try:
+                sysk = extract(family, ent["op"], ent["params"], ent["ins"], ent["k"], keygen=True)
+                keygen_structure(run, ob2, sysk, family, ent["op"], ent["params"], ent["ins"], ent["k"], timeout=timeout)
+            except Exception as ex:  # noqa
+                ob2.set(INCONCLUSIVE, f"keygen structure comparison failed: {ex!r}")
+            if ob2.status != HOLDS:
+                run.log(f"{ob2.status:12s} {ob2.id} {ob2.detail[:200]}")
 
     with ThreadPoolExecutor(workers) as ex:
         list(ex.map(one, entries))
